@@ -154,6 +154,22 @@ def _cases(tier, rng):
                 yield {"prog": prog, "storage": st, "faults": [{"kind": "raise", "call": k}]}
 
 
+    # quota: one internal axis whose size is given as a bare int - to map(internal_shapes=...) or on the function
+    want, tries = (4 if tier == "quick" else 40), 0
+    while want and tries < 40000:
+        tries += 1
+        prog = progs.gen_map_program(rng, n_funcs=rng.randint(2, 3), allow_generator=False)
+        _, calls = progs.denote(prog)
+        cands = [f for f in prog["funcs"] if f.get("internal") and len(f["internal"]) == 1 and f.get("spec") is not None]
+        if not 2 <= len(calls) <= 8 or not cands:
+            continue
+        want -= 1
+        cands[0]["internal_bare_int"] = True
+        cands[0]["internal_via_map"] = want % 2 == 0
+        for k in range(1, len(calls)):
+            yield {"prog": prog, "storage": "file_array", "faults": [{"kind": "raise", "call": k}]}
+
+
 def _global_call_fault(prog, k):
     """The k-th user call overall (sequential order of the reference) -> (func, per-function call index)."""
     _, calls = progs.denote(prog)
